@@ -227,3 +227,43 @@ Fixpoint indices (s : shape) : list (list nat) :=
   | [] => [[]]
   | d :: r => flat_map (fun i => map (cons i) (indices r)) (seq 0 d)
   end.
+
+(* ------------------------------------------------------------------ operator shape from its parameters
+   T/Phi/E/P/R: parameters are append-expanded (expand_arrays(append=True)) and broadcast,
+   an all-scalar operator has shape (1,) (atleast_1d / arr[NAX]); then set_axes on the
+   coefficient array (core = 1 for ScalarOp, 2 for MatrixOp trailing axes) *)
+Definition op_shape (params : list shape) (core : nat) (axes : option (nat + list nat)) : option shape :=
+  match broadcast_shapes true params with
+  | None => None
+  | Some b =>
+      let b' := match b with [] => [1] | _ => b end in
+      match axes with
+      | None => Some b'
+      | Some ax => match set_axes core (b' ++ repeat 3 core) ax with
+                   | Some s => Some (firstn (length s - core) s)
+                   | None => None
+                   end
+      end
+  end.
+
+Definition list_nat_eqb (a b : list nat) : bool := shape_eqb a b.
+
+(* verdict of a direct scalar_prod / fall-back call: shape and the elements read at sample indices *)
+Definition prod_check (A B : shape) (ns : nat) (obs : option shape)
+           (samples : list (list nat * list nat * list nat)) : bool :=
+  oshape_eqb (prod_shape A B ns) obs &&
+  forallb (fun t => match t with (idx, oi, si) =>
+             shape_eqb (prod_op A B idx) oi && shape_eqb (prod_st B ns idx) si end) samples.
+
+(* verdict of matrix_prod(inplace=True) on the pinned tree (q = true) or the repaired one:
+   batch shape of the result, and elements read at sample batch indices *)
+Definition mprod_check (q : bool) (A B : shape) (ns : nat) (obs : option shape)
+           (samples : list (list nat * list nat * list nat)) : bool :=
+  match vprod q true A B ns, obs with
+  | None, None => true
+  | Some p, Some r =>
+      shape_eqb (pi_shape p) r &&
+      forallb (fun t => match t with (idx, oi, si) =>
+                 shape_eqb (pi_op p idx) oi && shape_eqb (pi_st p idx) si end) samples
+  | _, _ => false
+  end.
